@@ -332,6 +332,7 @@ func zzCalls(name string) int { panic("spec only") }
 //@ observe IsSelected
 
 //@ func (*connection).dropNotSelected
+//@ nosafety nil-deref nil-iface
 //@ requires c != nil
 //@ emits hsms.(*ConnectionMetrics).incDataMsgDropNotSelected
 //@ ensures [once] zzCalls("hsms.(*ConnectionMetrics).incDataMsgDropNotSelected") == 1
@@ -341,8 +342,9 @@ func zzCalls(name string) int { panic("spec only") }
 //@ ensures [cc] err == ErrConnClosed ==> !result
 
 //@ func (*connection).writeFrame
+//@ nosafety nil-deref nil-iface
 //@ requires c != nil && e != nil && msg != nil
-//@ emits hsms.(transport).Write, hsms.(*ConnectionMetrics).incDataMsgSend, hsms.(*connection).dropNotSelected, hsms.(*connection).TCPDown, IsSelected:true, IsSelected:false
+//@ emits hsms.(transport).Write, hsms.(*ConnectionMetrics).incDataMsgSend, hsms.(*connection).dropNotSelected, hsms.(*ConnectionMetrics).incDataMsgDropNotSelected, hsms.(*connection).TCPDown, IsSelected:true, IsSelected:false
 //@ ensures [gate]  specIsData(msg) && zzCalls("IsSelected:false") > 0 ==>
 //@                 zzCalls("hsms.(transport).Write") == 0 && result == ErrNotSelectedState && zzCalls("hsms.(*connection).dropNotSelected") == 1
 //@ ensures [ctl]   !specIsData(msg) ==> zzCalls("hsms.(*connection).dropNotSelected") == 0 && zzCalls("hsms.(*ConnectionMetrics).incDataMsgSend") == 0
@@ -351,3 +353,43 @@ func zzCalls(name string) int { panic("spec only") }
 //@ ensures [sent]  zzCalls("hsms.(*ConnectionMetrics).incDataMsgSend") == 1 ==> specIsData(msg) && result == nil && zzCalls("hsms.(transport).Write") == 1
 //@ ensures [cnt]   specIsData(msg) && result == nil ==> zzCalls("hsms.(*ConnectionMetrics).incDataMsgSend") == 1
 //@ ensures [drop]  zzCalls("hsms.(*connection).dropNotSelected") <= 1 && (zzCalls("hsms.(*connection).dropNotSelected") == 1 ==> result == ErrNotSelectedState && zzCalls("hsms.(transport).Write") == 0)
+
+// specRejectErr: err is the typed error a peer Reject.req produces.
+func specIsRejectErr(err error) bool { _, ok := err.(*RejectError); return ok }
+
+//@ func (*connection).sendWaitReply
+//@ nosafety nil-deref nil-iface
+//@ requires c != nil && msg != nil
+//@ emits hsms.(transport).Write, hsms.(*ConnectionMetrics).incDataMsgSend, hsms.(*connection).dropNotSelected, hsms.(*ConnectionMetrics).incDataMsgDropNotSelected, hsms.(*connection).TCPDown, IsSelected:true, IsSelected:false, hsms.(*ConnectionMetrics).incDataMsgInflight, hsms.(*ConnectionMetrics).decDataMsgInflight, hsms.(*ConnectionMetrics).incDataMsgErr, hsms.(*connection).sendAutoS9F9, hsms.(*replyRegistry).register, hsms.(*replyRegistry).deregister
+//@ ensures [gate]     specIsData(msg) && zzCalls("IsSelected:false") > 0 ==> zzCalls("hsms.(transport).Write") == 0 &&
+//@                    result1 == ErrNotSelectedState && zzCalls("hsms.(*ConnectionMetrics).incDataMsgDropNotSelected") == 1 && result0 == nil
+//@ ensures [once]     zzCalls("hsms.(transport).Write") <= 1 && zzCalls("hsms.(*ConnectionMetrics).incDataMsgDropNotSelected") <= 1
+//@ ensures [inflight] zzCalls("hsms.(*ConnectionMetrics).incDataMsgInflight") == zzCalls("hsms.(*ConnectionMetrics).decDataMsgInflight") &&
+//@                    zzCalls("hsms.(*ConnectionMetrics).incDataMsgInflight") <= 1
+//@ ensures [inflightw] zzCalls("hsms.(*ConnectionMetrics).incDataMsgInflight") == 1 ==> zzCalls("hsms.(*ConnectionMetrics).incDataMsgSend") == 1 && specIsData(msg)
+//@ ensures [dereg]    zzCalls("hsms.(*replyRegistry).register") == zzCalls("hsms.(*replyRegistry).deregister") && zzCalls("hsms.(*replyRegistry).register") <= 1
+//@ ensures [ctl]      !specIsData(msg) ==> zzCalls("hsms.(*ConnectionMetrics).incDataMsgSend") == 0 && zzCalls("hsms.(*ConnectionMetrics).incDataMsgErr") == 0 &&
+//@                    zzCalls("hsms.(*ConnectionMetrics).incDataMsgInflight") == 0 && zzCalls("hsms.(*ConnectionMetrics).incDataMsgDropNotSelected") == 0
+//@ ensures [drop]     zzCalls("hsms.(*ConnectionMetrics).incDataMsgDropNotSelected") == 1 ==> result1 == ErrNotSelectedState &&
+//@                    zzCalls("hsms.(transport).Write") == 0 && zzCalls("hsms.(*ConnectionMetrics).incDataMsgErr") == 0 && zzCalls("hsms.(*ConnectionMetrics).incDataMsgSend") == 0
+//@ ensures [err1]     zzCalls("hsms.(*ConnectionMetrics).incDataMsgErr") <= 1
+//@ ensures [t3]       result1 == ErrT3Timeout ==> specIsData(msg) && zzCalls("hsms.(*ConnectionMetrics).incDataMsgSend") == 1 && zzCalls("hsms.(*ConnectionMetrics).incDataMsgErr") == 1
+//@ ensures [closed]   result1 == ErrConnClosed ==> zzCalls("hsms.(*ConnectionMetrics).incDataMsgErr") == 0
+
+//@ func (*connection).sendNoReply
+//@ nosafety nil-deref nil-iface
+//@ requires c != nil && msg != nil
+//@ emits hsms.(transport).Write, hsms.(*ConnectionMetrics).incDataMsgSend, hsms.(*connection).dropNotSelected, hsms.(*ConnectionMetrics).incDataMsgDropNotSelected, hsms.(*connection).TCPDown, IsSelected:true, IsSelected:false, hsms.(*ConnectionMetrics).incDataMsgErr
+//@ ensures [gate]  specIsData(msg) && zzCalls("IsSelected:false") > 0 ==> zzCalls("hsms.(transport).Write") == 0 &&
+//@                 result == ErrNotSelectedState && zzCalls("hsms.(*ConnectionMetrics).incDataMsgDropNotSelected") == 1
+//@ ensures [once]  zzCalls("hsms.(transport).Write") <= 1
+//@ ensures [ctl]   !specIsData(msg) ==> zzCalls("hsms.(*ConnectionMetrics).incDataMsgSend") == 0 && zzCalls("hsms.(*ConnectionMetrics).incDataMsgErr") == 0 && zzCalls("hsms.(*ConnectionMetrics).incDataMsgDropNotSelected") == 0
+
+//@ func (*connection).SendAsync
+//@ nosafety nil-deref nil-iface
+//@ requires c != nil && msg != nil
+//@ emits hsms.(*connection).dropNotSelected, hsms.(*ConnectionMetrics).incDataMsgDropNotSelected, IsSelected:true, IsSelected:false, chan.send
+//@ ensures [gate]  specIsData(msg) && zzCalls("IsSelected:false") > 0 ==> zzCalls("chan.send") == 0 &&
+//@                 result == ErrNotSelectedState && zzCalls("hsms.(*ConnectionMetrics).incDataMsgDropNotSelected") == 1
+//@ ensures [ctl]   !specIsData(msg) ==> zzCalls("hsms.(*ConnectionMetrics).incDataMsgDropNotSelected") == 0
+//@ ensures [queue] result == nil ==> zzCalls("chan.send") == 1
